@@ -192,6 +192,11 @@ def t2_claim_merge(prog):
             r.inst('Claims::try_merge for (Claim, C): %d merges, %d `?`' % (len(tm), len(br)))
             if len(tm) != 2:
                 r.viol('T2', 'list/operands', g.loc(), 'list merge must merge head and tail (found %d merges)' % len(tm))
+            somes = [b for b, i, s_ in gb.stmts() if s_['k'] == 'assign' and s_['place']['l'] == 0 and s_['rv']['k'] == 'agg' and s_['rv'].get('path') == 'core::option::Option' and s_['rv']['vname'] == 'Some']
+            for sbk in somes:
+                for b, t in tm:
+                    if not gb.dominates(b, sbk):
+                        r.viol('T2', 'list/some-without-merge', g.loc(t['ln']), 'a path returns Some (compatible) without merging every element of the two claim lists (e.g. an equality fast path: identical lists containing a Mutable claim are exactly the conflicting case)')
             for b, t in tm:
                 d = derived(gb, {t['dest']['l']})
                 if not any(op_local(bt['args'][0]) in d for bb, bt in br):
@@ -296,4 +301,116 @@ def l1_reborrow_lifetime(prog):
         if bad:
             r.viol('L1', '%s::query/views-outlive-receiver-borrow' % name, f.loc(),
                    'returned views %s carry the handle\'s lifetime %s instead of the `&mut self` borrow: the method can be called again while an earlier result is alive (two live &mut to one component)' % (bad[0][0], bad[0][1]))
+    return r
+
+
+@rule('I2', props=['C03'], floor=1, configs=('all', 'default'))
+def i2_size_hint_upper(prog):
+    """result::Iter::size_hint may report a finite upper bound only when no further archetype can contribute:
+    the decision to return `Some(upper)` must depend on the *upper* bound of the archetype iterator's own
+    size_hint (its lower bound may legitimately be 0 at any time, so a decision taken from the lower bound
+    alone under-reports the remaining count)."""
+    r = Result()
+    fs = [f for f in prog.fns.values() if f.name == 'size_hint' and f.impl and f.impl['trait'] and f.impl['trait']['path'] == 'core::iter::Iterator' and is_adt(f.impl['self'], 'query::result::iter::Iter')]
+    if len(fs) != 1:
+        r.viol('I2', 'missing', '-', 'Iter::size_hint not found')
+        return r
+    f = fs[0]
+    body = f.body
+    inner = [(b, t) for b, t in body.calls(lambda c: c['name'] == 'size_hint' and c.get('trait') == 'core::iter::Iterator')
+             if t['args'] and ty_mentions(body.place_ty(op_place(t['args'][0])) or {}, lambda n: n.get('k') == 'adt' and n['path'].startswith('archetypes::'))]
+    r.inst('Iter::size_hint: %d inner size_hint call(s) on the archetype iterator' % len(inner))
+    if len(inner) != 1:
+        r.viol('I2', 'no-inner-size-hint', f.loc(), 'size_hint does not consult the archetype iterator: it cannot bound the entities of archetypes not yet visited')
+        return r
+    ib, it = inner[0]
+    # where does the value live? (local, projection prefix)
+    homes = [(it['dest']['l'], [])]
+    changed = True
+    while changed:
+        changed = False
+        for b, i, s in body.stmts():
+            if s['k'] != 'assign' or s['place']['p']:
+                continue
+            rv = s['rv']
+            for (l, pre) in list(homes):
+                if rv['k'] == 'use' and op_local(rv['op']) == l and not pre:
+                    h = (s['place']['l'], [])
+                elif rv['k'] == 'agg' and rv['agg'] == 'tuple':
+                    h = None
+                    for k, o in enumerate(rv['ops']):
+                        if op_local(o) == l and not pre:
+                            h = (s['place']['l'], [k])
+                else:
+                    h = None
+                if h is not None and h not in homes:
+                    homes.append(h)
+                    changed = True
+
+    def reads_upper(place):
+        for (l, pre) in homes:
+            if place['l'] != l:
+                continue
+            fl = [e['f'] for e in place['p'] if isinstance(e, dict) and 'f' in e]
+            if fl[:len(pre) + 1] == pre + [1]:
+                return True
+        return False
+
+    def switch_reads_upper(sb):
+        st = body.term(sb)
+        p = op_place(st['discr'])
+        if p is None:
+            return False
+        if p['p']:
+            return reads_upper(p)
+        d = single_def(body, p['l'])
+        if d and d[0] == 'assign':
+            rv = d[3]['rv']
+            if rv['k'] == 'discr':
+                return reads_upper(rv['place'])
+            for q in rv_operands(rv):
+                if reads_upper(q):
+                    return True
+        if d and d[0] == 'call':
+            for a in d[2]['args']:
+                q = op_place(a)
+                if q is not None:
+                    acc = access_of_place(body, q)
+                    # a reference to <home>.1 passed to a comparison
+                    for (l, pre) in homes:
+                        fl = [s_[1] for s_ in acc.steps if isinstance(s_, tuple) and s_[0] == 'f']
+                        if acc.root == l and fl[:len(pre) + 1] == pre + [1]:
+                            return True
+        return False
+    # result blocks with a (possibly) finite upper bound: tuples whose second component is not a literal
+    # None, and results produced wholesale by a call (e.g. forwarding the current archetype's size_hint)
+    sites = []
+    for b, i, s in body.stmts():
+        if s['k'] == 'assign' and s['place']['l'] == 0 and not s['place']['p']:
+            if s['rv']['k'] == 'agg' and s['rv']['agg'] == 'tuple' and len(s['rv']['ops']) == 2:
+                ul = op_local(s['rv']['ops'][1])
+                d = resolve_def(body, ul) if ul is not None else None
+                is_none = bool(d and d[0] == 'assign' and d[3]['rv']['k'] == 'agg' and d[3]['rv'].get('vname') == 'None')
+                if not is_none:
+                    sites.append((b, s['ln']))
+            else:
+                sites.append((b, s['ln']))
+    for b in range(body.n):
+        t = body.term(b)
+        if t['k'] == 'call' and t['dest']['l'] == 0 and not t['dest']['p'] and b != ib:
+            sites.append((t['target'] if t['target'] is not None else b, t['ln']))
+    for b, ln in sites:
+        if True:
+            s = {'ln': ln}
+            ok = False
+            for sb in range(body.n):
+                st = body.term(sb)
+                if st['k'] != 'switch':
+                    continue
+                for tgt in set(st['targets'] + [st['otherwise']]):
+                    if body.edge_dominates((sb, tgt), b) and switch_reads_upper(sb):
+                        ok = True
+            if not ok:
+                r.viol('I2', 'finite-upper-without-inner-upper', f.loc(s['ln']),
+                       'a finite upper bound is returned without the decision depending on the archetype iterator\'s upper bound: while archetypes remain, the reported upper bound can be below the number of results still to come')
     return r
